@@ -339,6 +339,8 @@ func (ff *FuncFacts) ArithSites() []ArithSite {
 					s.OK, s.Why = true, fmt.Sprintf("interval: operands %s %s, result %s fits %s", a, c, r, tr)
 				} else if x.Op == token.SUB && ff.knownLE(x.Y, x.X, b) {
 					s.OK, s.Why = true, "guard: subtrahend <= minuend on every path"
+				} else if why, ok := ff.geomLoopIdiom(x, tr); ok {
+					s.OK, s.Why = true, why
 				} else if x.Op == token.ADD && ff.ceilDivIdiom(x, b) {
 					s.OK, s.Why = true, "idiom: x/d + 1 under x%d != 0 (d >= 2, so x/d <= max/2)"
 				} else {
@@ -510,4 +512,67 @@ func hasRealReferrer(v ssa.Value) bool {
 		return true
 	}
 	return false
+}
+
+// geomLoopIdiom: acc = acc * c inside "for k := 0; k < n; k++" where n <= N by its
+// interval: acc <= init * c^N.  Discharged when that bound fits the type.
+func (ff *FuncFacts) geomLoopIdiom(x *ssa.BinOp, tr Interval) (string, bool) {
+	if x.Op != token.MUL {
+		return "", false
+	}
+	phi, ok := x.X.(*ssa.Phi)
+	c, okc := constInt(x.Y)
+	if !ok || !okc || c.Sign() <= 0 {
+		return "", false
+	}
+	lp := ff.headerLoop[phi.Block()]
+	if lp == nil || !lp.Blocks[x.Block()] {
+		return "", false
+	}
+	var init *big.Int
+	for i, pred := range phi.Block().Preds {
+		e := phi.Edges[i]
+		if lp.Blocks[pred] {
+			if e != x && e != phi {
+				return "", false
+			}
+		} else {
+			v, ok := constInt(e)
+			if !ok || (init != nil && init.Cmp(v) != 0) {
+				return "", false
+			}
+			init = v
+		}
+	}
+	if init == nil || init.Sign() < 0 {
+		return "", false
+	}
+	// trip count: header condition "k < n" with k the induction variable from 0
+	iff := ifOf(lp.Header)
+	if iff == nil {
+		return "", false
+	}
+	cond, ok := iff.Cond.(*ssa.BinOp)
+	if !ok || cond.Op != token.LSS || !lp.Blocks[lp.Header.Succs[0]] {
+		return "", false
+	}
+	name := loopVarName(lp.Depth)
+	if ff.Term(cond.X) != name || strings.Contains(ff.loopSpace(lp), "=") {
+		return "", false
+	}
+	// the multiplication must happen at most once per iteration: its block is in this
+	// loop and in no inner loop
+	if ff.innermost[x.Block()] != lp {
+		return "", false
+	}
+	n := ff.rangeOf(cond.Y, lp.Header, 0)
+	if n.Hi.Cmp(big.NewInt(64)) > 0 {
+		return "", false
+	}
+	bound := new(big.Int).Exp(c, n.Hi, nil)
+	bound.Mul(bound, init)
+	if bound.Cmp(tr.Hi) > 0 {
+		return "", false
+	}
+	return fmt.Sprintf("idiom: geometric accumulator, at most %s iterations (trip count %s), bound %s fits", n.Hi, ff.Term(cond.Y), bound), true
 }
